@@ -15,7 +15,7 @@ from vlib import Check, standard_proof_phase, ddmin, VERIF, COQ
 PID = 'C07'
 MANIFEST = dict(
     category='proof',
-    text='Machine-checked (Coq) for the drain-on-stop clause: BackendWorker::_exit is modelled on the backend micro-step machine (exit_drain: emptiness check, populate, process while nothing else is pending; skeleton of _exit read from the source on every run and proved equal to the modelled loop) and, for every configuration, every history before the stop (any interleaving, exited threads included) and every pace of the clock, when the loop leaves no registered thread context holds a queued record or buffered event, everything committed before the stop has been processed, the drain commits nothing itself, and the last action is the flush of every active sink (C07_stop_drains_partial; partial: termination of the loop needs real time to pass the grace period and is observed, not proved). The process-level clauses (atexit, restart, signal handler, wait status, file content seen from outside) cannot be expressed in the model and are decided by exhaustive fault enumeration on the real library (child processes): a scripted program of 1-3 logging threads (some finished and joined, '
+    text='Machine-checked (Coq) for the drain-on-stop clause: BackendWorker::_exit is modelled on the backend micro-step machine (exit_drain: emptiness check, populate, process while nothing else is pending; skeleton of _exit read from the source on every run and proved equal to the modelled loop) and, for every configuration, every history before the stop (any interleaving, exited threads included) and every pace of the clock, when the loop leaves no registered thread context holds a queued record or buffered event, everything committed before the stop has been processed, the drain commits nothing itself, and the last action is the flush of every active sink (C07_stop_drains_partial; partial: termination of the loop needs real time to pass the grace period and is observed, not proved). The removal guard of exited threads\' contexts is tied (T-src) and the drain of exited threads\' statements is exercised on the deterministic backend driver (threads exit while their statements sit in the backend\'s buffers, another thread\'s flush is processed first, then the drain; conservation monitor). The process-level clauses (atexit, restart, signal handler, wait status, file content seen from outside) cannot be expressed in the model and are decided by exhaustive fault enumeration on the real library (child processes): a scripted program of 1-3 logging threads (some finished and joined, '
          'some alive), both clock sources, a spinning or a sleeping backend (measured backlog at the fault), 0-2 stop/start cycles, ends at every chosen '
          'statement boundary by Backend::stop()+return, exit() from main or another thread, return from main, raise() of each of SIGSEGV/SIGABRT/SIGFPE/'
          'SIGILL/SIGINT/SIGTERM, a process-directed SIGINT/SIGTERM, or a real fault (null store, abort(), integer division by zero, trap instruction). '
@@ -607,6 +607,40 @@ def child_cmdline(exe, case):
     return '%s file=/tmp/c07_replay.log %s' % (exe, case)
 
 
+def gen_exit_drain(rng, facts):
+    """threads log a few statements and exit; other threads flush; polls at random moments (with resumes injected at
+    the yield points); then the drain. Bounded blocking and unbounded frontends."""
+    from be_common import Case
+    nt = rng.randint(2, 4)
+    soft = rng.choice([1, 2, 4]); hard = rng.choice([h for h in (2, 4, 8) if h >= soft])
+    c = Case(dropping=rng.choice([0, 2]), capk=rng.choice([8, 10]), tinit=rng.choice([2, 4]), soft=soft, hard=hard,
+             grace=rng.choice([0, 0, 1000]), facts=facts)
+    alive = set(range(nt))
+    for _ in range(rng.randint(4, 16)):
+        r = rng.random(); t = rng.randrange(nt)
+        if r < 0.45: c.log(t, pad=rng.choice([0, 5, 19]))
+        elif r < 0.6: c.tick(1); c.flush(t)
+        elif r < 0.75 and len(alive) > 1 and t in alive: c.exit(t); alive.discard(t)
+        elif r < 0.85: c.tick(rng.choice([1, 1001, 5000]))
+        else:
+            inj = []
+            if rng.random() < 0.5:
+                inj.append((rng.choice([3, 4, 5]), rng.choice([0, 1]), [('resume', rng.randrange(nt))]))
+            c.poll(inj)
+    for _ in range(4):
+        for t in range(nt): c.resume(t)
+        c.tick(5000)
+        for _ in range(10): c.poll()
+    c.ctx()
+    return c
+
+
+def driver_phase(ck, tier):
+    import props.c03 as c03
+    from be_check import be_driver_phase
+    return be_driver_phase(ck, tier, gen_exit_drain, c03.monitor, 250, 5000, 'M-BE vs backend driver (exit + flush + drain)')
+
+
 def run(tier):
     ck = Check(PID, tier)
     broken = []
@@ -685,10 +719,14 @@ def run(tier):
                          extra={'child_cmd': child_cmdline(exe, small), 'all_failed_clauses': ['%s: %s' % x for x in f], 'original_case': cs,
                                 'frequency_of_minimised_case': '%d/%d runs fail the same way' % (nfail, len(reps)),
                                 'cases_failing_this_way': len(group), 'other_failing_cases': [g[0] for g in group[1:6]]})
-        if broken and not ck.violations:
-            ck.violation('no-failing-input-found', '; '.join(broken))
     finally:
         shutil.rmtree(tmpdir, ignore_errors=True)
+    # the drain of exited threads' statements, on the deterministic backend driver: threads log and exit, another
+    # thread's flush request is processed while their statements sit in the backend's buffers, then the backend is
+    # polled until everything is empty (what _exit does); monitor = every accepted statement written once, in order
+    drv = driver_phase(ck, tier)
+    if broken and not ck.violations:
+        ck.violation('no-failing-input-found', '; '.join(broken))
     walls = sorted(o['wall'] for o in obs)
     samples = [cases[0], cases[len(cases) // 3], cases[(2 * len(cases)) // 3], cases[-1]]
     samples = [{'case': s, 'child_cmd': child_cmdline('out/build/proc-<hash>', s)} for s in samples]
@@ -705,7 +743,7 @@ def run(tier):
                                 'children_hung': sum(1 for o in obs if o['status'] == 'HANG'),
                                 'child_wall_s': {'median': walls[len(walls) // 2], 'max': walls[-1]},
                                 'other_thread_statements_missing_at_a_signal_not_promised': sum(f['other_thread_missing_at_signal'] for f in fl),
-                                'corpus_cases': len(corpus()), 'parallel_children': jobs, 'child_timeout_s': timeout})
+                                'corpus_cases': len(corpus()), 'parallel_children': jobs, 'child_timeout_s': timeout, 'exited_thread_drain_on_backend_driver': drv})
 
 
 def replay(path):
